@@ -177,6 +177,54 @@ def countdown(objs, n):
     return steps
 '''
 
+# suite 2: the field `id` itself is written (so functions that only read it take the store as a read-only parameter),
+# prefix mode, a global cell
+SRC2 = '''
+class Thing:
+    counter = 0
+
+    def __init__(self, k):
+        self.id = Thing.counter
+        Thing.counter += 2
+        self.features = {'k': k}
+        self.costs_signed = []
+
+
+def relabel(objs, base):
+    for o in objs:
+        o.id = o.id + base
+    return len(objs)
+
+
+def find2(objs, ident):
+    for o in objs:
+        if o.id == ident:
+            return o
+    return None
+
+
+def relabel_find(objs, base, ident):
+    n = relabel(objs, base)
+    o = find2(objs, ident)
+    if o is None:
+        return n
+    o.features['k'] += 1
+    p = find2(objs, o.id + base)
+    if p is not None:
+        p.id = 0
+    return o.id
+'''
+HEAP2 = {"record": "ind", "fields": [["id", "nat"], ['features["k"]', "Z"]]}
+FUNCS2 = [["Thing", "__init__"], ["", "relabel"], ["", "find2"], ["", "relabel_find"]]
+TYPES2 = {
+    "Thing.__init__": {"as": "thing_init_gen", "mode": "prefix", "statements": 2, "self": "ind", "params": {},
+                       "globals": [["Thing.counter", "nat"]], "returns": "unit"},
+    "relabel": {"params": {"objs": "list ind", "base": "nat"}, "returns": "nat"},
+    "find2": {"params": {"objs": "list ind", "ident": "nat"}, "returns": "opt ind"},
+    "relabel_find": {"params": {"objs": "list ind", "base": "nat", "ident": "nat"}, "returns": "nat",
+                     "calls": {"relabel": "relabel", "find2": "find2"}},
+}
+
 HEAP = {"record": "ind", "ext": True,
         "fields": [["id", "nat"], ["costs_signed", "list T"], ['features["k"]', "Z"], ['features["tag"]', "opt nat"],
                    ['features["log"]', "list nat"], ['features["cd"]', "E"]]}
@@ -321,14 +369,23 @@ def copt(x, f):
     return "None" if x is None else "(Some %s)" % f(x)
 
 
-FIELD_RENDER = {"k": (cZ, "Z.eqb", "0%Z", "Z"),
+def fname(key):
+    return key.split('"')[1] if '"' in key else key
+
+
+def fget(o, name):
+    return o.id if name == "id" else o.features[name]
+
+
+FIELD_RENDER = {"id": (cnat, "Nat.eqb", "0%nat", "nat"),
+                "k": (cZ, "Z.eqb", "0%Z", "Z"),
                 "tag": (lambda v: copt(v, cnat), "(oeqb Nat.eqb)", "None", "(option nat)"),
                 "log": (lambda v: clist(v, cnat), "(leqb Nat.eqb)", "[]", "(list nat)"),
                 "cd": (cfloat, "feqb", "0%float", "float")}
 
 HEADER = '''From Coq Require Import List ZArith Bool Arith Floats.
 From Artap Require Import Base.FloatInst.
-From ArtapGen Require Import SynthGen.
+From ArtapGen Require Import @MODULE@.
 Import ListNotations.
 Definition feqb (a b : float) : bool := fbits_eqb a b.
 Fixpoint leqb {A : Type} (e : A -> A -> bool) (a b : list A) : bool :=
@@ -378,8 +435,8 @@ def run_python(ns, case, ft):
         v = index[id(v)]
     fields = {}
     for key in ft.wfields:
-        name = key.split('"')[1]
-        fields[name] = [o.features[name] for o in objs]
+        name = fname(key)
+        fields[name] = [fget(o, name) for o in objs]
     return ("ret", v, lists, fields)
 
 
@@ -387,7 +444,7 @@ def coq_call(case, ft, n):
     graph = case.graph
     env = {"f_id": "(tab %s 0%%nat)" % clist([g[0] for g in graph], cnat),
            "f_costs_signed": "(tab %s [])" % clist([g[1] for g in graph], lambda c: clist(c, cfloat))}
-    col = {"k": 2, "tag": 3, "log": 4, "cd": 5}
+    col = {"id": 0, "k": 2, "tag": 3, "log": 4, "cd": 5}
     args = [env[nm] for nm in ft.inst_rest]
     for (pn, pt), a in zip(ft.params, case.args):
         if pt == ("list", ("ref", "ind")):
@@ -400,9 +457,9 @@ def coq_call(case, ft, n):
             args.append(cZ(a))
         else:
             raise AssertionError(pt)
-    order = [f[0] for f in HEAP["fields"]]
+    order = [f[0] for f in ft.heap.fields]
     for key in sorted(ft.wfields + ft.rfields, key=order.index):
-        name = key.split('"')[1]
+        name = fname(key)
         rnd, _, dflt, _ = FIELD_RENDER[name]
         args.append("(tab %s %s)" % (clist([g[col[name]] for g in graph], rnd), dflt))
     if ft.fuel:
@@ -424,7 +481,7 @@ def coq_check(case, ft, outcome, n):
     for i, l in enumerate(lists):
         tests.append("leqb Nat.eqb l%d_ %s" % (i, clist(l, cnat)))
     for i, key in enumerate(ft.wfields):
-        name = key.split('"')[1]
+        name = fname(key)
         frnd, feq, _, _ = FIELD_RENDER[name]
         tests.append("leqb %s (obs %d h%d_) %s" % (feq, n, i, clist(fields[name], frnd)))
     pat = names[0] if len(names) == 1 else "'(%s)" % ", ".join(names)
@@ -470,20 +527,91 @@ def stuck_cases(rng):
     return out
 
 
+def run_suite(rng, work, heap, name, src, funcs, types, heapdecl, cases_of, pysrc=None, extra_checks=None):
+    """translate, run CPython and Coq, compare -> (number of cases, exceptions, stuck, indices of disagreements, cases, outcomes)"""
+    open(os.path.join(work, "pkg", name.lower() + ".py"), "w").write(src)
+    spec = {"frontend": "heap", "source": "pkg/%s.py" % name.lower(), "module": name, "functions": funcs, "heap": heapdecl,
+            "types": types}
+    text, info = heap.translate_spec(work, spec)
+    fts = dict(heap.LAST_TRANSLATORS)
+    open(os.path.join(work, name + ".v"), "w").write(text)
+    ns = {}
+    exec(compile(pysrc or src, name.lower() + ".py", "exec"), ns)
+    cases = cases_of(rng)
+    checks, outcomes = [], []
+    for c in cases:
+        ft = fts[c.fn]
+        out = ("stuck",) if c.expect_stuck else run_python(ns, c, ft)
+        outcomes.append(out)
+        checks.append(coq_check(c, ft, out, len(c.graph)))
+    if extra_checks:
+        more = extra_checks(rng, ns, fts)
+        checks += [m[1] for m in more]
+        cases += [m[0] for m in more]
+        outcomes += [("ret",)] * len(more)
+    with open(os.path.join(work, name + "Cases.v"), "w") as f:
+        f.write(HEADER.replace("@MODULE@", name))
+        f.write("Definition results : list bool := [\n  %s\n].\n" % ";\n  ".join(checks))
+        f.write("Definition bad : list nat := map fst (filter (fun p => negb (snd p)) (combine (seq 0 (length results)) results)).\n")
+        f.write("Eval vm_compute in bad.\n")
+    flags = ["-Q", work, "ArtapGen", "-Q", os.path.join(VERIF, "coq", "theories"), "Artap"]
+    for fn in (name + ".v", name + "Cases.v"):
+        p = subprocess.run(["coqc"] + flags + [os.path.join(work, fn)], capture_output=True, text=True, timeout=1200)
+        if p.returncode != 0:
+            print("coqc failed on %s:\n%s" % (fn, p.stderr[-3000:]))
+            print("work directory:", work)
+            return None
+    import re
+    m = re.search(r"=\s*\[([0-9;\s]*)\]", p.stdout.replace("%nat", ""))
+    bad = [int(x) for x in m.group(1).replace("\n", " ").split(";") if x.strip()] if m else None
+    if bad is None:
+        print("cannot parse the Coq output:\n" + p.stdout[-2000:])
+        return None
+    nexc = sum(1 for o in outcomes if o[0] == "exc")
+    nstuck = sum(1 for o in outcomes if o[0] == "stuck")
+    print("%s: %d functions, %d cases (%d exceptions, %d outside the model on purpose): %d disagreements"
+          % (name, len(funcs), len(cases), nexc, nstuck, len(bad)))
+    for i in bad[:10]:
+        c = cases[i]
+        print("  DISAGREE case %d: %s graph=%r args=%r python=%r" % (i, c.fn, c.graph, c.args, outcomes[i]))
+    return bad
+
+
+def cases2(rng):
+    cases = []
+    for _ in range(int(os.environ.get("SELFTEST_CASES", "60"))):
+        g = gen_graph(rng)
+        n = len(g)
+        cases.append(Case("relabel", g, [refs_list(rng, n, hi=6), rng.randint(0, 3)], [0]))
+        cases.append(Case("find2", g, [refs_list(rng, n, hi=6), rng.randint(0, 5)], [0]))
+        cases.append(Case("relabel_find", g, [refs_list(rng, n, hi=6), rng.randint(0, 2), rng.randint(0, 6)], [0]))
+    return cases
+
+
+def init_checks(rng, ns, fts):
+    """prefix mode + global cell: Thing(k) takes the id from the class counter and advances it by two"""
+    out = []
+    ft = fts["Thing.__init__"]
+    for _ in range(20):
+        c0 = rng.randint(0, 50)
+        ns["Thing"].counter = c0
+        t = ns["Thing"](3)
+        ids = [rng.randint(0, 9) for _ in range(4)]
+        r = rng.randrange(4)
+        after = list(ids)
+        after[r] = t.id
+        call = "(%s %s (tab %s 0%%nat) %s)" % (ft.inst_name, cnat(r), clist(ids, cnat), cnat(c0))
+        chk = ("match %s with inl (inr r_) => (let '(_, h_, c_) := r_ in leqb Nat.eqb (obs 4 h_) %s && Nat.eqb c_ %s) "
+               "| _ => false end" % (call, clist(after, cnat), cnat(ns["Thing"].counter)))
+        out.append((Case("Thing.__init__", [], [r, c0], []), chk))
+    return out
+
+
 def main():
     rng = random.Random(int(os.environ.get("SELFTEST_SEED", "20261002")))
     work = tempfile.mkdtemp(prefix="py2coq_heap_selftest_")
     os.makedirs(os.path.join(work, "pkg"))
-    open(os.path.join(work, "pkg", "synth.py"), "w").write(SRC)
-    spec = {"frontend": "heap", "source": "pkg/synth.py", "module": "SynthGen", "functions": FUNCS, "heap": HEAP,
-            "types": TYPES}
-    text, info = py2coq.translate_spec(work, spec)
-    heap = sys.modules.get("py2coq_heap") or py2coq._frontend("heap")
-    # the translator instance that produced `text` keeps its own LAST_TRANSLATORS: fetch through a second run
-    text, info = heap.translate_spec(work, spec)
-    fts = dict(heap.LAST_TRANSLATORS)
-    open(os.path.join(work, "SynthGen.v"), "w").write(text)
-    ns = {}
+    heap = py2coq._frontend("heap")
     pysrc = SRC
     if os.environ.get("SELFTEST_FAULT"):
         # fault injection: CPython runs a slightly different source; the comparison must notice
@@ -494,40 +622,12 @@ def main():
                      ("if o.id == ident:", "if o.id == ident and o.features['k'] > 0:")]:
             assert a in pysrc, a
             pysrc = pysrc.replace(a, b, 1)
-    exec(compile(pysrc, "synth.py", "exec"), ns)
     per = int(os.environ.get("SELFTEST_CASES", "60"))
-    cases = gen_cases(rng, per) + stuck_cases(rng)
-    checks, outcomes = [], []
-    for c in cases:
-        ft = fts[c.fn]
-        out = ("stuck",) if c.expect_stuck else run_python(ns, c, ft)
-        outcomes.append(out)
-        checks.append(coq_check(c, ft, out, len(c.graph)))
-    with open(os.path.join(work, "Cases.v"), "w") as f:
-        f.write(HEADER)
-        f.write("Definition results : list bool := [\n  %s\n].\n" % ";\n  ".join(checks))
-        f.write("Definition bad : list nat := map fst (filter (fun p => negb (snd p)) (combine (seq 0 (length results)) results)).\n")
-        f.write("Eval vm_compute in bad.\n")
-    flags = ["-Q", work, "ArtapGen", "-Q", os.path.join(VERIF, "coq", "theories"), "Artap"]
-    for fn in ("SynthGen.v", "Cases.v"):
-        p = subprocess.run(["coqc"] + flags + [os.path.join(work, fn)], capture_output=True, text=True, timeout=1200)
-        if p.returncode != 0:
-            print("coqc failed on %s:\n%s" % (fn, p.stderr[-3000:]))
-            print("work directory:", work)
-            return 1
-    import re
-    m = re.search(r"=\s*\[([0-9;\s]*)\]", p.stdout.replace("%nat", ""))
-    bad = [int(x) for x in m.group(1).replace("\n", " ").split(";") if x.strip()] if m else None
-    if bad is None:
-        print("cannot parse the Coq output:\n" + p.stdout[-2000:])
+    bad1 = run_suite(rng, work, heap, "SynthGen", SRC, FUNCS, TYPES, HEAP, lambda r: gen_cases(r, per) + stuck_cases(r), pysrc=pysrc)
+    bad2 = run_suite(rng, work, heap, "SynthGen2", SRC2, FUNCS2, TYPES2, HEAP2, cases2, extra_checks=init_checks)
+    if bad1 is None or bad2 is None:
         return 1
-    nexc = sum(1 for o in outcomes if o[0] == "exc")
-    nstuck = sum(1 for o in outcomes if o[0] == "stuck")
-    print("%d functions, %d cases (%d exceptions, %d outside the model on purpose): %d disagreements"
-          % (len(FUNCS), len(cases), nexc, nstuck, len(bad)))
-    for i in bad[:10]:
-        c = cases[i]
-        print("  DISAGREE case %d: %s graph=%r args=%r python=%r" % (i, c.fn, c.graph, c.args, outcomes[i]))
+    bad = bad1 + bad2
     # sources that must be rejected
     wrong = 0
     for item in REJECT:
